@@ -12,7 +12,7 @@ from fractions import Fraction
 from decimal import Decimal
 
 from . import source
-from .types import (SDefaultDict, TDefaultDict, SMat, TMat, NArr, SList, SDict, SSet, Rec, Opt, CList, FuncRef, ModRef, Unsupported, VerifierError, is_sym,
+from .types import (SODict, TODict, sdict_store, SDefaultDict, TDefaultDict, SMat, TMat, NArr, SList, SDict, SSet, Rec, Opt, CList, FuncRef, ModRef, Unsupported, VerifierError, is_sym,
                     R, I, B, S, T, TInt, TReal, TBool, TStr, TNode, TObj, TTuple, TVec, TList, TDict, TRec, TOpt,
                     slist_get, slist_set, slist_append, slist_slice, to_slist, norm_index, norm_slice_bound,
                     key_term, key_untuple, key_sort_of)
@@ -91,6 +91,16 @@ class DefaultDictNew:
 
     def __init__(self, factory):
         self.factory = factory
+
+
+class GraphNew:
+    """the value of networkx.Graph() before it is bound to a local whose graph type the contract declares"""
+
+
+class SListKeyed(SList):
+    """a list of pairs whose first components are distinct keys with a known inverse (zip of a dict's key order with values):
+    member(x): x is the first component of an entry; inv(x): its index"""
+    __slots__ = ("member", "inv")
 
 
 class BoundMethod:
@@ -499,6 +509,8 @@ class Engine:
             if isinstance(cont, SDict):
                 kt = key_term(cont.k, key)
                 self.may_raise("KeyError", b_not(z3.Select(cont.dom, kt)), node, "del")
+                if isinstance(cont, SODict):
+                    raise Unsupported("deletion from an insertion-ordered dict")
                 self.write_path(path, SDict(cont.k, cont.v, z3.Store(cont.dom, kt, False), cont.comps))
             else:
                 raise Unsupported(f"del on {type(cont).__name__}")
@@ -952,6 +964,14 @@ class Engine:
 
     def dict_keys(self, d):
         """ghost key sequence of a symbolic dict: a bijection between [0,n) and dom(d)"""
+        if isinstance(d, SODict):
+            # insertion order is part of the value: the representation invariant is checked (obligation), then used
+            rep = z3.And(*TODict.rep(d))
+            self.oblige("model", f"ordered dict: order enumerates the keys once@{len(self.obligations)}", rep, None)
+            self.assume(rep)
+            pos_arr = d.pos
+            self.last_dict_pos = lambda x: pos_arr[x]      # noqa: E731
+            return d.order
         ks = key_sort_of(d.k)
         tag = f"keys{self.counters.get('keys', 0)}"
         self.counters["keys"] = self.counters.get("keys", 0) + 1
@@ -1008,6 +1028,11 @@ class Engine:
     def assign(self, tgt, val):
         if isinstance(tgt, ast.Name):
             self.frame.aliases.pop(tgt.id, None)
+            if isinstance(val, GraphNew):
+                decl = self.contract.locals.get(tgt.id) if len(self.frames) == 1 and self.contract is not None else None
+                if decl is None or set(getattr(decl, "fields", {})) != {"nodes", "adj"}:
+                    raise Unsupported(f"networkx.Graph() bound to {tgt.id}: declare its graph type in the contract (locals: TGraph)")
+                val = empty_graph(decl)
             if isinstance(val, DefaultDictNew):
                 decl = self.contract.locals.get(tgt.id) if len(self.frames) == 1 and self.contract is not None else None
                 if not isinstance(decl, TDefaultDict):
@@ -1123,7 +1148,7 @@ class Engine:
             else:
                 inner = val
             fl = obj.v.flat(inner)
-            return type(obj)(obj.k, obj.v, z3.Store(obj.dom, kt, True), [z3.Store(c, kt, f) for c, f in zip(obj.comps, fl)])
+            return sdict_store(obj, kt, fl)
         if isinstance(obj, CList):
             if isinstance(x, int):
                 i = x + len(obj) if x < 0 else x
@@ -1419,6 +1444,12 @@ class Engine:
                 if len(base.shape) == 1:
                     return NArr((len(rows),), rows)
                 return NArr((len(rows),) + base.shape[1:], [x for r in rows for x in r.data])
+        if isinstance(base, SymRange) and st is None:
+            # range(a, b)[lo:hi] is the range of the selected positions
+            n = z3.If(base.hi > base.lo, base.hi - base.lo, 0)
+            l = norm_slice_bound(lo, n, z3.IntVal(0))
+            h = norm_slice_bound(hi, n, n)
+            return SymRange(base.lo + l, base.lo + z3.If(h > l, h, l))
         if isinstance(base, SList) and st is None:
             l = norm_slice_bound(lo, base.n, z3.IntVal(0))
             h = norm_slice_bound(hi, base.n, base.n)
@@ -2050,6 +2081,19 @@ class AList(list):
     """dict literal with symbolic keys: association list (later entries win)"""
 
 
+def empty_graph(decl):
+    """the value of networkx.Graph(): no nodes, no edges (node attributes of absent nodes are arbitrary)"""
+    nt, at = decl.fields["nodes"], decl.fields["adj"]
+    ks = key_sort_of(nt.k)
+    comps = [z3.K(ks, z3.FreshConst(srt, "dv")) for srt in nt.v.sorts()]
+    if isinstance(nt, TODict):
+        order = SList(nt.k, z3.IntVal(0), [z3.K(z3.IntSort(), z3.FreshConst(ks, "ok"))])
+        nodes = SODict(nt.k, nt.v, z3.K(ks, False), comps, order, z3.K(ks, z3.IntVal(0)))
+    else:
+        nodes = SDict(nt.k, nt.v, z3.K(ks, False), comps)
+    return Rec(decl.cls, {"nodes": nodes, "adj": SSet(at.k, z3.K(key_sort_of(at.k), False))})
+
+
 class SymRange:
     def __init__(self, lo, hi):
         self.lo, self.hi = I(lo), I(hi)
@@ -2232,6 +2276,8 @@ def type_of(v):
         return TSet(v.k)
     if isinstance(v, SDefaultDict):
         return TDefaultDict(v.k, v.v)
+    if isinstance(v, SODict):
+        return TODict(v.k, v.v)
     if isinstance(v, SDict):
         return TDict(v.k, v.v)
     if isinstance(v, Rec):
